@@ -15,7 +15,11 @@
    lies far beyond the persisted window (jump_schedules), long random
    histories with the default chunk sizes (10 .. 10000) and MAX_SEQNO
    boundary runs from a hand-written sequence.json are driven the same way.
-4. code -> spec: every recorded history (issued partial IVs, accept/reject,
+   The context is driven in both directions: accepted requests are answered
+   (protect(response, request_id)), Echo errors rendered (to_message()), the
+   peer's responses to its own requests unprotected; the nonce of every
+   encryption it performs is recorded as (generator id, partial IV).
+4. code -> spec: every recorded history (nonces, issued partial IVs, accept/reject,
    crash/clean/load, projection of memory and directory) is validated by TLC
    against SeqPersistTrace.tla: the clauses are evaluated on the real history;
    outcome and projection are compared with the model (difference = DRIFT)."""
@@ -44,6 +48,8 @@ CONSTANTS
   MaxUnprotect = %(nu)d
   MaxCrash = %(nc)d
   MaxClean = %(nk)d
+  MaxRespond = %(nr)d
+  MaxResponse = %(nq)d
 VIEW View
 INVARIANT NoBad
 INVARIANT C13_NoReuse
@@ -54,6 +60,7 @@ INVARIANT C13_CleanKeepsWindow
 INVARIANT IssuedBelowDisk
 INVARIANT MemoryBelowPersisted
 INVARIANT KnownWindowIsAccurate
+INVARIANT ReusableNonceIsUnused
 """
 
 SIM_CFG = """SPECIFICATION Spec
@@ -68,6 +75,8 @@ CONSTANTS
   MaxUnprotect = 6
   MaxCrash = 4
   MaxClean = 3
+  MaxRespond = 5
+  MaxResponse = 2
 INVARIANT NoBad
 """
 
@@ -83,6 +92,8 @@ CONSTANTS
   MaxUnprotect = 1
   MaxCrash = 1
   MaxClean = 1
+  MaxRespond = 1
+  MaxResponse = 1
 INVARIANT Report
 CHECK_DEADLOCK FALSE
 """
@@ -245,6 +256,11 @@ class Driver:
         self.sent = {}  # request number -> (wire bytes, lifetime, echo label) for unchanged replays
         self.life = 0
         self.learned_echo = None
+        self.rids = {}  # request number -> request_id of its acceptance in this lifetime
+        self.echo_err = None  # (request number, ReplayErrorWithEcho) waiting to be rendered
+        self.last_req = None  # [outer, request_id, the peer's request_id] of the last request protected in this lifetime
+        self.enc = []  # (generator, partial IV) of the nonce of every encryption done with the sender key
+        self.nresp = 0
         self.trace = []
         self.notes = []
         self.stores = []
@@ -280,8 +296,8 @@ class Driver:
                 p[k] = max(-FAR + 1, min(FAR - 1, p[k]))
         return p
 
-    def emit(self, k, out, n=-1, echo="none", c=-1, reg="none"):
-        e = {"k": k, "out": out, "n": n, "echo": echo, "c": c, "reg": reg, "cs": self.sch["cs"], "cl": self.sch["cl"], "mx": self.sch["mx"], "w": self.sch["w"]}
+    def emit(self, k, out, n=-1, echo="none", c=-1, reg="none", rn=-1):
+        e = {"k": k, "out": out, "n": n, "rn": rn, "echo": echo, "c": c, "reg": reg, "cs": self.sch["cs"], "cl": self.sch["cl"], "mx": self.sch["mx"], "w": self.sch["w"]}
         e.update(self.proj())
         self.trace.append(e)
 
@@ -295,7 +311,41 @@ class Driver:
             lock.release()
         self.inj.reap()
         self.inj.disarm()
+        self.forget()
+
+    def forget(self):
+        """What lived in the memory of the process that is gone."""
         self.learned_echo = None
+        self.rids = {}
+        self.echo_err = None
+        self.last_req = None
+
+    def watch_encryptions(self):
+        """Every AEAD encryption of this context is recorded with the nonce it uses, taken apart into
+        (who generated the partial IV, partial IV) as RFC 8613 5.2 composes it."""
+        drv, ctx = self, self.ctx
+        real = ctx.alg_aead
+
+        def encrypt(cls, plaintext, aad, key, iv):
+            drv.enc.append(drv.nonce_pair(ctx, key, iv))
+            return real.encrypt(plaintext, aad, key, iv)
+
+        ctx.alg_aead = type("Recording" + type(real).__name__, (type(real),), {"encrypt": classmethod(encrypt)})()
+
+    @staticmethod
+    def nonce_pair(ctx, key, nonce):
+        try:
+            if key != ctx.sender_key:
+                return ("other-key", -1)
+            comp = bytes(a ^ b for a, b in zip(nonce, ctx.common_iv))
+            idlen = comp[0]
+            gen = comp[len(comp) - 5 - idlen : len(comp) - 5]
+            if any(comp[1 : len(comp) - 5 - idlen]):
+                return ("malformed", -1)
+            who = "own" if gen == ctx.sender_id else "peer" if gen == ctx.recipient_id else "other"
+            return (who, int.from_bytes(comp[-5:], "big"))
+        except Exception:
+            return ("unreadable", -1)
 
     def guarded(self, c, fn):
         """Run fn with the crash point armed; returns ('ok', result) | ('crashed', effects done)."""
@@ -325,7 +375,11 @@ class Driver:
             self.emit("load", "error")
             return
         self.life += 1
-        self.learned_echo = None
+        self.forget()
+        try:
+            self.watch_encryptions()
+        except Exception as e:
+            self.notes.append("encryptions can not be watched: %r" % (e,))
         self.emit("load", "ok")
 
     def op_crash(self, op):
@@ -357,7 +411,11 @@ class Driver:
             if st == "crashed":
                 self.emit("protect", "crashed", c=r)
                 return
-            outer, _ = r
+            outer, rid = r
+            self.last_req = [outer, rid, None]
+            if self.enc and self.enc[-1] != ("own", piv_of(outer)):
+                self.notes.append("request with partial IV %d encrypted with the nonce of %r" % (piv_of(outer), self.enc[-1]))
+            del self.enc[:-1]
             n = piv_of(outer) - self.base
             if not -FAR < n < FAR:
                 self.notes.append("issued number %d (relative to %d) is outside the range of this history" % (n, self.base))
@@ -416,6 +474,7 @@ class Driver:
             st, r = self.guarded(op.get("crash"), do)
         except self.oscore.ReplayErrorWithEcho as e:
             self.learned_echo = e.echo
+            self.echo_err = (n, e)
             self.emit("unprotect", "reject", n=n, echo=echo, reg=reg)
             return
         except self.oscore.ProtectionInvalid:
@@ -428,7 +487,92 @@ class Driver:
         if st == "crashed":
             self.emit("unprotect", "crashed", n=n, echo=echo, c=r, reg=reg)
             return
+        self.rids[n] = r[1]
         self.emit("unprotect", "accept", n=n, echo=echo, reg=reg)
+
+    # -- the other direction: responses the context protects / unprotects -----------------------------
+    def rel(self, n):
+        n -= self.base
+        if not -FAR < n < FAR:
+            self.notes.append("issued number %d (relative to %d) is outside the range of this history" % (n, self.base))
+            n = max(-FAR + 1, min(FAR - 1, n))
+        return n
+
+    def answer(self, k, rn, crash, do):
+        """A message protected in answer to the request rn: which nonce was it encrypted with?"""
+        n0 = len(self.enc)
+        try:
+            st, r = self.guarded(crash, do)
+        except self.oscore.ContextUnavailable:
+            self.emit(k, "refused", rn=rn)
+            return
+        except Exception as e:
+            self.notes.append("%s raised %r" % (k, e))
+            self.emit(k, "error", rn=rn)
+            return
+        if st == "crashed":
+            self.emit(k, "crashed", c=r, rn=rn)
+            return
+        used = self.enc[n0:]
+        if len(used) == 1 and used[0][0] == "own":
+            self.emit(k, "issued", n=self.rel(used[0][1]), rn=rn)
+        elif len(used) == 1 and used[0][0] == "peer":
+            self.emit(k, "reused", n=used[0][1], rn=rn)
+        else:
+            self.notes.append("%s for request %d: encryptions %r" % (k, rn, used))
+            self.emit(k, "error", rn=rn)
+
+    def op_respond(self, op):
+        """The application answers a request accepted in this lifetime (as oscore_sitewrapper does)."""
+        if self.ctx is None or op["n"] not in self.rids:
+            return
+        rid = self.rids[op["n"]]
+        self.nresp += 1
+        msg = self.aiocoap.Message(code=self.aiocoap.CONTENT, payload=b"answer %d" % self.nresp)
+        ctx = self.ctx
+        self.answer("respond", op["n"], op.get("crash"), lambda: ctx.protect(msg, rid))
+
+    def op_echoerr(self, op):
+        """The 4.01 + Echo for the last request turned down for lack of a known window is rendered."""
+        if self.ctx is None or self.echo_err is None:
+            return
+        (rn, err), self.echo_err = self.echo_err, None
+        self.answer("echoerr", rn, op.get("crash"), err.to_message)
+
+    def op_response(self, op):
+        """The peer answers the last request this lifetime has sent, re-using the request's nonce
+        (piv None) or with the number `piv` of its own; the context unprotects the response."""
+        if self.ctx is None:
+            return
+        if self.last_req is None:
+            self.op_protect({"op": "protect"})
+            if self.ctx is None or self.last_req is None:
+                return
+        a = self.aiocoap
+        outer, rid, peer_rid = self.last_req
+        piv = op.get("piv")
+        try:
+            if peer_rid is None:
+                outer.mtype, outer.mid, outer.token = a.NON, 1, b""
+                _, peer_rid = self.peer.unprotect(a.Message.decode(outer.encode()))
+                self.last_req[2] = peer_rid
+            peer_rid.can_reuse_nonce = piv is None
+            if piv is not None:
+                self.peer.sender_sequence_number = piv
+            self.nresp += 1
+            router, _ = self.peer.protect(a.Message(code=a.CONTENT, payload=b"reply %d" % self.nresp), peer_rid)
+            router.mtype, router.mid, router.token = a.NON, 2, b""
+            incoming = a.Message.decode(router.encode())
+        except Exception as e:
+            self.notes.append("the peer could not answer the request: %r" % (e,))
+            return
+        try:
+            self.ctx.unprotect(incoming, rid)
+        except Exception as e:
+            self.notes.append("unprotecting a response raised %r" % (e,))
+            self.emit("response", "reject", n=-1 if piv is None else piv)
+            return
+        self.emit("response", "ok", n=-1 if piv is None else piv)
 
     def op_clean(self, op):
         if self.ctx is None:
@@ -446,11 +590,12 @@ class Driver:
             return
         self.ctx = None
         self.inj.reap()
+        self.forget()
         self.emit("clean", "done")
 
     def run(self):
         s = self.sch
-        start = {"k": "start", "out": "start", "n": -1, "echo": "none", "c": -1, "reg": "none", "cs": s["cs"], "cl": s["cl"], "mx": s["mx"], "w": s["w"]}
+        start = {"k": "start", "out": "start", "n": -1, "rn": -1, "echo": "none", "c": -1, "reg": "none", "cs": s["cs"], "cl": s["cl"], "mx": s["mx"], "w": s["w"]}
         self.inj.install(self.oscore)
         try:
             start.update(self.proj())
@@ -513,6 +658,16 @@ def ops_from_steps(steps):
             ops.append({"op": "unprotect", "n": a["n"], "echo": a["echo"]})
         elif k == "cleanbegin":
             pending, effects = {"op": "clean"}, 0
+        elif k in ("reused", "norespond"):
+            ops.append({"op": "respond", "n": a["n"]})
+        elif k == "respond":
+            pending, effects = {"op": "respond", "n": a["n"]}, 0
+        elif k == "echoerr":
+            pending, effects = {"op": "echoerr"}, 0
+        elif k == "noechoerr":
+            ops.append({"op": "echoerr"})
+        elif k == "response":
+            ops.append({"op": "response", "piv": a["n"] if a["echo"] == "piv" else None})
         elif k == "effect":
             effects += 1
         elif k in ("issued", "accept", "clean"):
@@ -599,23 +754,56 @@ def scaled_max_schedules(behs):
 # -- systematic crash-point scenarios ------------------------------------------------------
 def systematic_schedules():
     out = []
+    # (both directions: accepted requests are answered -- the first answer re-uses the request's nonce --, the
+    # 4.01 + Echo for requests turned down by an unknown window is rendered, and after every reload the peer's
+    # plain response to a request of the new lifetime is unprotected before earlier requests are replayed)
     tail = [
-        {"op": "load"}, {"op": "protect", "count": 3}, {"op": "unprotect", "n": 0}, {"op": "unprotect", "n": 1},
-        {"op": "unprotect", "n": 7, "echo": "fresh"}, {"op": "unprotect", "n": 0}, {"op": "unprotect", "n": 7, "echo": "fresh"},
+        {"op": "load"}, {"op": "protect", "count": 3}, {"op": "response"}, {"op": "unprotect", "n": 0}, {"op": "echoerr"}, {"op": "unprotect", "n": 1},
+        {"op": "unprotect", "n": 7, "echo": "fresh"}, {"op": "respond", "n": 7}, {"op": "unprotect", "n": 0}, {"op": "unprotect", "n": 7, "echo": "fresh"},
         {"op": "protect", "count": 2}, {"op": "clean"}, {"op": "load"}, {"op": "unprotect", "n": 7, "echo": "fresh"},
-        {"op": "unprotect", "n": 1}, {"op": "unprotect", "n": 8}, {"op": "protect", "count": 2}, {"op": "crash"},
-        {"op": "load"}, {"op": "unprotect", "n": 8}, {"op": "protect", "count": 2},
+        {"op": "unprotect", "n": 1}, {"op": "unprotect", "n": 8}, {"op": "respond", "n": 8}, {"op": "respond", "n": 8}, {"op": "protect", "count": 2}, {"op": "crash"},
+        {"op": "load"}, {"op": "protect", "count": 1}, {"op": "response"}, {"op": "unprotect", "n": 8}, {"op": "echoerr"}, {"op": "protect", "count": 2},
     ]
     for cs, cl in ((1, 4), (2, 4), (10, 10000), (3, 3)):
         for pre in (0, 1, cs, cs + 1):
             for c in range(5):
-                head = [{"op": "load"}, {"op": "unprotect", "n": 0}, {"op": "protect", "count": pre}]
+                head = [{"op": "load"}, {"op": "unprotect", "n": 0}, {"op": "respond", "n": 0}, {"op": "protect", "count": pre}]
                 out.append({"cs": cs, "cl": cl, "mx": FAR, "w": 32, "ops": head + [{"op": "protect", "count": cs + 1, "crash": c}] + tail, "origin": "systematic"})
                 out.append({"cs": cs, "cl": cl, "mx": FAR, "w": 32, "ops": head + [{"op": "clean", "crash": c}] + tail, "origin": "systematic"})
                 # first unprotect of a lifetime loaded from a clean stop stores "unknown"
                 out.append({"cs": cs, "cl": cl, "mx": FAR, "w": 32, "ops": head + [{"op": "clean"}, {"op": "load"}, {"op": "unprotect", "n": 1, "crash": c}] + tail, "origin": "systematic"})
                 # very first unprotect on a fresh directory
                 out.append({"cs": cs, "cl": cl, "mx": FAR, "w": 32, "ops": [{"op": "load"}, {"op": "unprotect", "n": 0, "crash": c}] + tail, "origin": "systematic"})
+    return out
+
+
+def response_schedules():
+    """The context in both roles around a stop: requests 0, 1, 2 are accepted and answered (the first answer
+    to each re-uses the request's nonce, a second one takes a number of the context's own), the lifetime ends
+    (crash / clean stop / crash inside the clean stop / crash inside an answer), the successor sends a request
+    and unprotects the peer's response -- without a partial IV, or with the fresh peer number 20 -- before or
+    after the earlier requests are replayed; every request turned down for lack of a known window gets its
+    4.01 + Echo rendered."""
+    out = []
+    for w, (cs, cl) in ((32, (10, 10000)), (2, (1, 4))):
+        for piv in (None, 20):
+            for ending in ([{"op": "crash"}], [{"op": "clean"}], [{"op": "clean", "crash": 2}], [{"op": "respond", "n": 2, "crash": 1}, {"op": "crash"}]):
+                for early in (True, False):
+                    ops = [{"op": "load"}]
+                    for n in (0, 1, 2):
+                        ops += [{"op": "unprotect", "n": n}, {"op": "respond", "n": n}]
+                    ops += [{"op": "respond", "n": 1}] + ending + [{"op": "load"}, {"op": "protect", "count": 1}]
+                    replays = []
+                    for n in (1, 2, 0, 1):
+                        replays += [{"op": "unprotect", "n": n}, {"op": "echoerr"}, {"op": "respond", "n": n}]
+                    resp = [{"op": "response", "piv": piv}]
+                    ops += (resp + replays) if early else (replays[:6] + resp + replays[6:])
+                    ops += [
+                        {"op": "unprotect", "n": 21, "echo": "fresh"}, {"op": "respond", "n": 21}, {"op": "respond", "n": 21}, {"op": "unprotect", "n": 22},
+                        {"op": "respond", "n": 22}, {"op": "response", "piv": 23}, {"op": "crash"}, {"op": "load"}, {"op": "unprotect", "n": 22}, {"op": "echoerr"},
+                        {"op": "unprotect", "n": 22}, {"op": "echoerr"}, {"op": "response"}, {"op": "unprotect", "n": 21}, {"op": "echoerr"},
+                    ]
+                    out.append({"cs": cs, "cl": cl, "mx": FAR, "w": w, "ops": ops, "origin": "response"})
     return out
 
 
@@ -673,9 +861,13 @@ def boundary_schedules(rng, count):
                 ops.append({"op": "unprotect", "n": n, "echo": rng.choice(["none", "fresh"]), "crash": rng.choice([None, None, 0, 1, 2, 3, 4])})
                 if rng.random() < 0.5:
                     ops += [{"op": "crash"}, {"op": "load"}, {"op": "unprotect", "n": n}]
+                # answers next to exhaustion: the re-used nonce costs no number, the second answer and the 4.01 do
+                ops += [{"op": "echoerr"}, {"op": "respond", "n": n}, {"op": "respond", "n": n, "crash": rng.choice([None, None, 1, 3])}]
+            ops.append({"op": "protect", "count": rng.randint(1, k + 4), "crash": rng.choice([None, None, 0, 1, 2, 3, 4])})
             ops.append(rng.choice([{"op": "crash"}, {"op": "clean"}, {"op": "clean", "crash": rng.randint(0, 4)}, {"op": "protect", "count": 2}]))
             ops.append({"op": "load"})
         ops.append({"op": "protect", "count": k + 3})
+        ops += [{"op": "unprotect", "n": peer_next}, {"op": "echoerr"}, {"op": "respond", "n": peer_next}, {"op": "respond", "n": peer_next}]
         ops += [{"op": "clean"}, {"op": "load"}, {"op": "protect", "count": 2}]
         out.append({"cs": cs, "cl": cl, "mx": span, "w": 32, "base": base, "ops": ops, "origin": "boundary", "seqfile": {"next-to-send": REAL_MAX - k, "received": received}})
     return out
@@ -701,6 +893,15 @@ def random_schedule(rng, long_run=False):
             ops.append({"op": "unprotect", "n": n, "echo": rng.choice(["none", "none", "fresh"]), "crash": rng.choice([None, None, 0, 1, 2, 3, 4])})
             if rng.random() < 0.5:
                 ops += [{"op": "crash"}, {"op": "load"}, {"op": "unprotect", "n": n}]
+        if life > 0 and rng.random() < 0.5:
+            # the new lifetime in the client role: a request of its own and the peer's response to it, without
+            # a partial IV or with a fresh number of the peer
+            piv = None
+            if rng.random() < 0.3:
+                piv, peer_next = peer_next, peer_next + 1
+            ops += [{"op": "protect", "count": 1}, {"op": "response", "piv": piv}]
+            if accepted_any:
+                ops.append({"op": "unprotect", "n": rng.choice(accepted_any)})
         if long_run and life == 1:
             # one lifetime long enough to grow the chunk to the limit (10+20+..+5120 = 10230 < count)
             ops.append({"op": "protect", "count": 10300 + rng.randint(0, 300)})
@@ -726,6 +927,11 @@ def random_schedule(rng, long_run=False):
                     n = rng.choice(accepted_any)
                     echo = "none"
                 ops.append({"op": "unprotect", "n": n, "echo": echo, "crash": rng.choice([None, None, None, 0, 1, 2, 3, 4])})
+                # the server role goes on: the 4.01 + Echo of a request turned down, answers to an accepted one
+                if rng.random() < 0.6:
+                    ops.append({"op": "echoerr", "crash": rng.choice([None, None, None, 0, 2, 4])})
+                for _i in range(rng.choice([0, 1, 1, 2, 3])):
+                    ops.append({"op": "respond", "n": n, "crash": rng.choice([None, None, None, None, 1, 3])})
             else:
                 ops.append({"op": "protect", "count": 1})
         ops.append(rng.choice([{"op": "crash"}, {"op": "crash"}, {"op": "clean"}, {"op": "clean"}, {"op": "clean", "crash": rng.randint(0, 4)}]))
@@ -735,11 +941,17 @@ def random_schedule(rng, long_run=False):
 def sig_of(clause, trace, at):
     shape = []
     for e in trace[1 : at + 1]:
-        t = {"load": "L", "protect": "P", "unprotect": "U", "clean": "K", "crash": "X"}[e["k"]]
+        t = {"load": "L", "protect": "P", "unprotect": "U", "clean": "K", "crash": "X", "respond": "R", "echoerr": "E", "response": "A"}[e["k"]]
         if e["out"] == "crashed" and e["k"] != "crash":
             t += "x%d" % e["c"]
         elif e["out"] in ("refused", "reject"):
             t += "-"
+        elif e["out"] == "reused":
+            t += "="
+        if e["k"] in ("respond", "echoerr"):
+            t += "%d" % e["rn"]
+        if e["k"] == "response" and e["n"] >= 0:
+            t += "%d" % e["n"]
         if e["k"] == "unprotect":
             t += "%d%s" % (e["n"], {"none": "", "stale": "s", "fresh": "e"}[e["echo"]])
         shape.append(t)
@@ -768,7 +980,7 @@ def validate_and_report(rep, wd, scheds, results, timeout=1500):
                 clause,
                 sig_of(clause, tr, at),
                 "clause %s false at event %d of a recorded history (%s schedule, chunk %d..%d): ... %s"
-                % (clause, at, s["origin"], s["cs"], s["cl"], json.dumps([{k: e[k] for k in ("k", "out", "n", "echo", "c", "ssn", "dnext", "dunk")} for e in tr[max(1, at - 4) : at + 1]])),
+                % (clause, at, s["origin"], s["cs"], s["cl"], json.dumps([{k: e[k] for k in ("k", "out", "n", "rn", "echo", "c", "ssn", "dnext", "dunk")} for e in tr[max(1, at - 4) : at + 1]])),
                 {"schedule": s, "trace": tr if len(tr) < 400 else tr[: at + 1][-400:], "firstBad": at},
             )
         if "DRIFT_model" in v["bad"] and not bad:
@@ -850,9 +1062,19 @@ def work(rep, args):
     # side) and one in which a fresh request may skip 2w-2 = 2, 2w-1 = 3 or 2w = 4 numbers (window 2: shift /
     # past the whole window) with fewer protects
     mc_runs = (
-        [dict(cs="{1, 2}", jumps="{0}", nj=0, np=6, nu=2, nc=2, nk=1), dict(cs="{1}", jumps="{0, 2, 3, 4}", nj=1, np=1, nu=3, nc=1, nk=1)]
+        [
+            dict(cs="{1, 2}", jumps="{0}", nj=0, np=6, nu=2, nc=2, nk=1, nr=0, nq=0),
+            dict(cs="{1}", jumps="{0, 2, 3, 4}", nj=1, np=1, nu=3, nc=1, nk=1, nr=0, nq=0),
+            # both directions: accepted requests are answered (re-using the request's nonce once, then with own
+            # numbers), Echo errors rendered, responses of the peer (without / with partial IV) unprotected
+            dict(cs="{1}", jumps="{0}", nj=0, np=2, nu=2, nc=1, nk=1, nr=2, nq=1),
+        ]
         if quick
-        else [dict(cs="{1, 2}", jumps="{0}", nj=0, np=6, nu=3, nc=2, nk=2), dict(cs="{1, 2}", jumps="{0, 2, 3, 4}", nj=1, np=2, nu=3, nc=2, nk=1)]
+        else [
+            dict(cs="{1, 2}", jumps="{0}", nj=0, np=6, nu=3, nc=2, nk=2, nr=0, nq=0),
+            dict(cs="{1, 2}", jumps="{0, 2, 3, 4}", nj=1, np=2, nu=3, nc=2, nk=1, nr=0, nq=0),
+            dict(cs="{1}", jumps="{0}", nj=0, np=2, nu=3, nc=2, nk=1, nr=3, nq=1),
+        ]
     )
     nsim = 500 if quick else 6000
     nrand = 40 if quick else 1500
@@ -867,7 +1089,8 @@ def work(rep, args):
         phases = {}
 
         nworkers = max(2, (_os.cpu_count() or 4) - 4)
-        share = [nworkers - max(1, nworkers // 4), max(1, nworkers // 4)]  # the second run is the small one
+        small = max(1, nworkers // 6)
+        share = [nworkers - 2 * small, small, small]  # the first run is the big one
 
         def run_mc(i):
             wd.write("SP_mc%d.cfg" % i, MC_CFG % mc_runs[i])
@@ -890,7 +1113,8 @@ def work(rep, args):
         # while TLC generates behaviours, the schedules that do not depend on them are driven
         syst = systematic_schedules()
         jumps = jump_schedules()
-        static = syst + jumps + boundary_schedules(rng, nbound)
+        resp = response_schedules()
+        static = syst + jumps + resp + boundary_schedules(rng, nbound)
         for i in range(nrand):
             static.append(random_schedule(rng, long_run=(i < (1 if quick else 6))))
         t0 = _time.time()
@@ -948,6 +1172,14 @@ def work(rep, args):
         store_shapes = set()
         regimes = {}
         beyond = {}
+        # (situations put to the implementation, whatever it made of them)
+        answers = {
+            "first response to an accepted request protected": 0, "further response to an accepted request protected": 0, "response demanded at exhaustion": 0,
+            "echo error rendered": 0, "echo error rendered for a request that an earlier lifetime answered": 0,
+            "peer's response without partial IV unprotected while the window is unknown": 0, "peer's response with partial IV unprotected while the window is unknown": 0,
+            "peer's response unprotected while the window is known": 0,
+            "request accepted by an earlier lifetime replayed after a response without partial IV met an unknown window": 0,
+        }
         for s, res in zip(scheds, results):
             store_shapes.update(res["meta"]["stores"])
             for n in res["meta"]["notes"][:2]:
@@ -973,6 +1205,32 @@ def work(rep, args):
                         if how is not None and any(x["k"] == "unprotect" and x["n"] == e["n"] for x in tr[j + 1 : j + 4]):
                             key = "%s, %s" % (e["reg"][6:], how)
                             beyond[key] = beyond.get(key, 0) + 1
+            acc_old, acc_now, ans_old, ans_now, plain_response_on_unknown = set(), set(), set(), set(), False
+            for i, e in enumerate(tr):
+                if e["k"] == "load":
+                    acc_old |= acc_now
+                    ans_old |= ans_now
+                    acc_now, ans_now, plain_response_on_unknown = set(), set(), False
+                elif e["out"] == "accept":
+                    acc_now.add(e["n"])
+                if e["k"] == "respond" and e["out"] in ("reused", "issued", "refused"):
+                    answers["response demanded at exhaustion" if e["out"] == "refused" else "further response to an accepted request protected" if e["rn"] in ans_now else "first response to an accepted request protected"] += 1
+                    if e["out"] != "refused":
+                        ans_now.add(e["rn"])
+                elif e["k"] == "echoerr" and e["out"] in ("reused", "issued"):
+                    answers["echo error rendered"] += 1
+                    if e["rn"] in ans_old:
+                        answers["echo error rendered for a request that an earlier lifetime answered"] += 1
+                elif e["k"] == "response":
+                    if tr[i - 1]["winit"] == 1:
+                        answers["peer's response unprotected while the window is known"] += 1
+                    elif e["n"] < 0:
+                        answers["peer's response without partial IV unprotected while the window is unknown"] += 1
+                        plain_response_on_unknown = True
+                    else:
+                        answers["peer's response with partial IV unprotected while the window is unknown"] += 1
+                elif e["k"] == "unprotect" and plain_response_on_unknown and e["n"] in acc_old and e["echo"] != "fresh":
+                    answers["request accepted by an earlier lifetime replayed after a response without partial IV met an unknown window"] += 1
             for e in tr[1:]:
                 if e["out"] == "crashed" and e["k"] != "crash":
                     crashes[(e["k"], e["c"])] = crashes.get((e["k"], e["c"]), 0) + 1
@@ -998,6 +1256,7 @@ def work(rep, args):
         want = [(k, c) for k in ("protect", "unprotect", "clean") for c in range(5)]
         missing = [x for x in want if x not in crashes]
         want_beyond = ["%s, %s" % (r, h) for r in ("shift", "past") for h in ["crash after %d effects" % c for c in range(5)] + ["crash right after", "crash after protects that store nothing"]]
+        missing += [k for k, v in answers.items() if v == 0]
         if any(r != "none" for r in regimes):
             missing += [x for x in want_beyond if x not in beyond]
         else:
@@ -1020,6 +1279,8 @@ def work(rep, args):
                 "exhaustive": True,
                 "phase_seconds": phases,
                 "jump_schedules": len(jumps),
+                "response_schedules": len(resp),
+                "other_direction_exercised": answers,
                 "accepted_requests_by_position_relative_to_window": regimes,
                 "first_change_of_a_vouched_window_beyond_it_then_crash_then_replay": beyond,
                 "schedules_from_simulation": n_sim,
@@ -1038,8 +1299,8 @@ def work(rep, args):
                 "effects_of_store_observed": sorted(store_shapes),
                 "distinct_nontrivial": len({tuple((e["k"], e["out"], e["c"]) for e in r["trace"][1:40]) for r in results}),
                 "samples": [
-                    {"schedule": scheds[i], "trace": [{k: e[k] for k in ("k", "out", "n", "echo", "c", "ssn", "dex", "dnext", "dunk", "tmp")} for e in results[i]["trace"][:12]]}
-                    for i in (0, n_sim + len(atmax), n_sim + len(atmax) + len(syst) + 8, len(scheds) - nrand - 1)
+                    {"schedule": scheds[i], "trace": [{k: e[k] for k in ("k", "out", "n", "rn", "echo", "c", "ssn", "dex", "dnext", "dunk", "tmp")} for e in results[i]["trace"][:12]]}
+                    for i in (0, n_sim + len(atmax), n_sim + len(atmax) + len(syst) + 8, n_sim + len(atmax) + len(syst) + len(jumps) + 1, len(scheds) - nrand - 1)
                 ],
                 "checker_cmd": "tlc SeqPersist.tla (Spec exhaustive; -simulate) ; tlc SeqPersistTrace.tla on recorded histories",
             }
@@ -1050,6 +1311,7 @@ def work(rep, args):
         oscore_env.ASSUMPTION,
         "a crash is process death between two file-system calls of _store (mkstemp, write+flush, fsync, replace): memory lost, directory as left behind, lock and descriptors dropped; no reordering of completed disk writes (as the statement says)",
         "crashes are injected by wrapping the names os/tempfile/io as seen from aiocoap.oscore; the crashed object is abandoned without __del__/_destroy",
+        "nonces are observed by giving each loaded context a recording subclass instance of its AEAD algorithm object (alg_aead) and taking the nonce apart as RFC 8613 5.2 composes it (common IV xor [id length | id | partial IV]); responses are protected / unprotected through the same calls as oscore_sitewrapper and transports/oscore make",
         "requests come from a genuine peer (fresh numbers increase, consecutively or with gaps up to far beyond the window; replays are unchanged earlier requests); forgeries are C12's subject",
         "exhaustive for the small constants recorded in mc_constants (one entry per run, details in mc_runs); default chunk sizes (10..10000) and the real 2^40-1 boundary are driven by systematic, random and boundary schedules and judged by TLC on the recorded histories",
     ]
